@@ -2,7 +2,7 @@
    of the code's critical sections (login, template, per-connection notification, submit, disconnect) of any number
    of miners.  Goroutine-level races inside a critical section are outside the model. *)
 From Coq Require Import NArith PeanoNat List Bool Lia.
-From Virel Require Import Lib.Config Lib.AMap Model.Stratum.
+From Virel Require Import Lib.Config Lib.AMap Lib.U64 Model.Difficulty Proofs.Difficulty Model.Stratum.
 Import ListNotations.
 Open Scope N_scope.
 
@@ -158,7 +158,7 @@ Qed.
 
 Section StratumProofs.
 Variable cfg : config.
-Variable pow_ok : blob -> bool.
+Variable pow : N -> blob -> N.
 
 (* a blob computed from a block names, for this chain, the block's template and recipient *)
 Lemma own_entry_blob_of b sent :
@@ -236,14 +236,14 @@ Ltac same H := injection H as <- <-; split; [split; assumption|apply heap_le_ref
 
 (* every step keeps the invariant and never overwrites a block *)
 Lemma step_facts s e s' o :
-  Inv s -> step cfg pow_ok s e = (s', o) -> Inv s' /\ heap_le (s_heap s) (s_heap s').
+  Inv s -> step cfg pow s e = (s', o) -> Inv s' /\ heap_le (s_heap s) (s_heap s').
 Proof.
   intros [Hb Hc] H.
-  destruct e as [cid addr jid|tpl ts extra ch|cid k extra jid|cid jid n x mb|cid]; cbn [step] in H.
+  destruct e as [cid addr jid|tpl ts extra ch d md|cid k extra jid|cid jid n x mb|cid]; cbn [step] in H.
   - (* login *)
     unfold do_login in H. cbv zeta in H. repeat dm H; try (same H).
     injection H as <- <-. cbn.
-    pose proof (heap_le_alloc _ _ (mkblk (b_tpl b) addr (b_ts b) (b_extra b) (b_nonce b) (b_chains b)) Hb) as Hle.
+    pose proof (heap_le_alloc _ _ (mkblk (b_tpl b) addr (b_ts b) (b_extra b) (b_nonce b) (b_chains b) (b_diff b)) Hb) as Hle.
     split; [split|exact Hle].
     + apply heap_bound_alloc. exact Hb.
     + apply Forall_nset; [exact (conns_ok_mono _ _ _ Hle Hc)|]. cbn. split.
@@ -251,12 +251,12 @@ Proof.
       * constructor; [|constructor]. eexists. cbn. rewrite nget_nset, N.eqb_refl. split; [reflexivity|]. split; [reflexivity|assumption].
   - (* template *)
     unfold do_template in H. injection H as <- <-. cbn.
-    pose proof (heap_le_alloc _ _ (mkblk tpl 0 ts extra 0 ch) Hb) as Hle.
+    pose proof (heap_le_alloc _ _ (mkblk tpl 0 ts extra 0 ch d) Hb) as Hle.
     split; [split|exact Hle]; [apply heap_bound_alloc; exact Hb|exact (conns_ok_mono _ _ _ Hle Hc)].
   - (* notify *)
     unfold do_notify in H. cbv zeta in H. repeat dm H; try (same H).
     injection H as <- <-. cbn.
-    pose proof (heap_le_alloc _ _ (mkblk (b_tpl b) (c_addr c) (b_ts b) extra (b_nonce b) (b_chains b)) Hb) as Hle.
+    pose proof (heap_le_alloc _ _ (mkblk (b_tpl b) (c_addr c) (b_ts b) extra (b_nonce b) (b_chains b) (b_diff b)) Hb) as Hle.
     split; [split|exact Hle].
     + apply heap_bound_alloc. exact Hb.
     + apply Forall_nset; [exact (conns_ok_mono _ _ _ Hle Hc)|]. cbn.
@@ -266,24 +266,24 @@ Proof.
       * eapply Forall_impl; [|exact Hj]. intros j. apply job_ok_mono. exact Hle.
       * eexists. cbn. rewrite nget_nset, N.eqb_refl. split; [reflexivity|]. split; [reflexivity|assumption].
   - (* submit *)
-    unfold do_submit in H. repeat dm H; try (same H);
+    unfold do_submit, submit_result, judge in H. repeat dm H; try (same H);
       injection H as <- <-; (split; [apply inv_kick; split; assumption|apply heap_le_refl]).
   - (* disconnect *)
     injection H as <- <-. split; [apply inv_kick; split; assumption|apply heap_le_refl].
 Qed.
 
 Lemma run_facts evs : forall s s' os,
-  Inv s -> run cfg pow_ok s evs = (s', os) -> Inv s' /\ heap_le (s_heap s) (s_heap s').
+  Inv s -> run cfg pow s evs = (s', os) -> Inv s' /\ heap_le (s_heap s) (s_heap s').
 Proof.
   induction evs as [|e r IH]; cbn; intros s s' os Hi H.
   - injection H as <- <-. split; [exact Hi|apply heap_le_refl].
-  - destruct (step cfg pow_ok s e) as [s1 o] eqn:Es. destruct (run cfg pow_ok s1 r) as [s2 os2] eqn:Er.
+  - destruct (step cfg pow s e) as [s1 o] eqn:Es. destruct (run cfg pow s1 r) as [s2 os2] eqn:Er.
     injection H as <- <-. destruct (step_facts _ _ _ _ Hi Es) as [Hi1 Hle1].
     destruct (IH _ _ _ Hi1 Er) as [Hi2 Hle2]. split; [exact Hi2|].
     intros p b Hp. exact (Hle2 _ _ (Hle1 _ _ Hp)).
 Qed.
 
-Definition reachable (s : server) : Prop := exists evs os, run cfg pow_ok init_server evs = (s, os).
+Definition reachable (s : server) : Prop := exists evs os, run cfg pow init_server evs = (s, os).
 
 Lemma reachable_inv s : reachable s -> Inv s.
 Proof. intros (evs & os & H). exact (proj1 (run_facts _ _ _ _ inv_init H)). Qed.
@@ -328,39 +328,35 @@ Proof. unfold blob_of. destruct (sort_chains _); [|discriminate]. intros [= <-].
 
 Lemma blob_of_renonce b sent e n :
   blob_of cfg b = Some sent ->
-  blob_of cfg (mkblk (b_tpl b) (b_rcp b) (b_ts b) e n (b_chains b)) = Some (mkblob (mb_ts sent) e n (mb_chains sent)).
+  blob_of cfg (mkblk (b_tpl b) (b_rcp b) (b_ts b) e n (b_chains b) (b_diff b)) = Some (mkblob (mb_ts sent) e n (mb_chains sent)).
 Proof. unfold blob_of. cbn. destruct (sort_chains _); [|discriminate]. intros [= <-]. reflexivity. Qed.
 
 (* T2, at submit time: for a job the connection still holds, a well-formed submission without merge-mining blob is
-   judged against exactly the blob the miner hashed (the sent blob with the miner's nonce and extra nonce): found when
-   that blob meets the proof of work, and only then rejected for low difficulty; the state does not change *)
+   judged against exactly the blob the miner hashed (the sent blob with the miner's nonce and extra nonce), with the
+   proof-of-work value of that blob under that blob's own seed, against the difficulty of the job's own block (the
+   verdict is [judge]: found when the value meets that difficulty, rejected for low difficulty when it does not); the
+   state does not change *)
 Lemma submit_judged_against_sent_blob s cid c jid j len n x :
   reachable s -> nget (s_conns s) cid = Some c -> find_job (c_jobs c) jid = Some j -> 4 <= len ->
-  step cfg pow_ok s (ESubmit cid jid (NBytes len n) x MNone) =
-    (s, if pow_ok (miner_blob (j_sent j) n x) then OFound (c_addr c) (miner_blob (j_sent j) n x) else ORejectedLowDiff).
+  exists b, nget (s_heap s) (j_ptr j) = Some b /\
+  step cfg pow s (ESubmit cid jid (NBytes len n) x MNone) =
+    submit_result s cid (judge cfg pow (b_diff b) (c_addr c) (miner_blob (j_sent j) n x)).
 Proof.
   intros Hr Hc Hf Hlen. destruct (find_job_In _ _ _ Hf) as [Hin _].
   destruct (reachable_job_ok _ _ _ _ Hr Hc Hin) as (b & H1 & H2 & H3).
+  exists b. split; [exact H1|].
   cbn [step]. unfold do_submit. rewrite Hc.
   destruct (len <? 4) eqn:E; [apply N.ltb_lt in E; lia|]. rewrite Hf, H1. unfold complete.
   destruct (blob_of_fields _ _ H3) as (Hts & Hex & Hno).
   set (e := match x with XBytes l v => if l =? 16 then v else b_extra b | XNone => b_extra b end).
-  rewrite (blob_of_renonce b (j_sent j) e n H3). cbn [b_rcp]. rewrite H2.
+  rewrite (blob_of_renonce b (j_sent j) e n H3). cbn [b_rcp b_diff]. rewrite H2.
   assert (Hm : miner_blob (j_sent j) n x = mkblob (mb_ts (j_sent j)) e n (mb_chains (j_sent j))).
   { unfold miner_blob, e. rewrite Hex. reflexivity. }
   rewrite Hm. reflexivity.
 Qed.
 
-(* ... hence a nonce that solves the sent blob is never rejected for failing proof of work *)
-Lemma solving_nonce_accepted s cid c jid j len n x :
-  reachable s -> nget (s_conns s) cid = Some c -> find_job (c_jobs c) jid = Some j -> 4 <= len ->
-  pow_ok (miner_blob (j_sent j) n x) = true ->
-  step cfg pow_ok s (ESubmit cid jid (NBytes len n) x MNone) = (s, OFound (c_addr c) (miner_blob (j_sent j) n x)).
-Proof.
-  intros Hr Hc Hf Hlen Hp. rewrite (submit_judged_against_sent_blob _ _ _ _ _ _ n x Hr Hc Hf Hlen). rewrite Hp. reflexivity.
-Qed.
-
-Lemma complete_keeps b n x mb jb : complete cfg b n x mb = CBlock jb -> b_tpl jb = b_tpl b /\ b_rcp jb = b_rcp b.
+Lemma complete_keeps b n x mb jb :
+  complete cfg b n x mb = CBlock jb -> b_tpl jb = b_tpl b /\ b_rcp jb = b_rcp b /\ b_diff jb = b_diff b.
 Proof.
   unfold complete. destruct mb as [| |m].
   - intros [= <-]. cbn. auto.
@@ -372,7 +368,7 @@ Qed.
 (* T3: whatever is submitted (any nonce, extra nonce, merge-mining blob), a block that is produced pays the login
    address of the submitting connection and names, for this chain, the same template and recipient as the sent blob *)
 Lemma found_block_pays_owner s cid jid nonce x mb s' r judged :
-  reachable s -> step cfg pow_ok s (ESubmit cid jid nonce x mb) = (s', OFound r judged) ->
+  reachable s -> step cfg pow s (ESubmit cid jid nonce x mb) = (s', OFound r judged) ->
   exists c j, nget (s_conns s) cid = Some c /\ find_job (c_jobs c) jid = Some j /\ r = c_addr c /\
     own_entry cfg judged = own_entry cfg (j_sent j) /\ pays cfg judged (c_addr c) = true /\ s' = s.
 Proof.
@@ -384,8 +380,8 @@ Proof.
   destruct (reachable_job_ok _ _ _ _ Hr Hc Hin) as (b & H1 & H2 & H3). rewrite H1 in H.
   destruct (complete cfg b n x mb) as [jb|] eqn:Hcm; [|discriminate].
   destruct (blob_of cfg jb) as [jd|] eqn:Hj; [|discriminate].
-  destruct (pow_ok jd); [|discriminate]. injection H as <- <- <-.
-  destruct (complete_keeps _ _ _ _ _ Hcm) as [Ht Hrc].
+  unfold submit_result, judge in H. destruct (pow_valid _ _) as [[|]|]; try discriminate. injection H as <- <- <-.
+  destruct (complete_keeps _ _ _ _ _ Hcm) as (Ht & Hrc & _).
   exists c, j. split; [reflexivity|]. split; [exact Hf|]. split; [congruence|].
   assert (Ho : own_entry cfg jd = own_entry cfg (j_sent j)).
   { rewrite (own_entry_blob_of _ _ Hj), (own_entry_blob_of _ _ H3). congruence. }
@@ -398,18 +394,18 @@ Qed.
 Definition event_cid (e : event) : option N :=
   match e with
   | ELogin cid _ _ | ENotify cid _ _ _ | ESubmit cid _ _ _ _ | EDisconnect cid => Some cid
-  | ETemplate _ _ _ _ => None
+  | ETemplate _ _ _ _ _ _ => None
   end.
 
 Lemma others_do_not_interfere s e s' o cid :
-  reachable s -> step cfg pow_ok s e = (s', o) -> event_cid e <> Some cid ->
+  reachable s -> step cfg pow s e = (s', o) -> event_cid e <> Some cid ->
   nget (s_conns s') cid = nget (s_conns s) cid /\
   (forall p b, nget (s_heap s) p = Some b -> nget (s_heap s') p = Some b).
 Proof.
   intros Hr H Hne. split; [|exact (proj2 (step_facts _ _ _ _ (reachable_inv _ Hr) H))].
   assert (Hk : forall c0, c0 <> cid -> nget (s_conns (kick s c0)) cid = nget (s_conns s) cid).
   { intros c0 Hc0. cbn. apply nget_ndel_other. congruence. }
-  destruct e as [c0 addr jid|tpl ts extra ch|c0 k extra jid|c0 jid n x mb|c0]; cbn [step] in H; cbn in Hne.
+  destruct e as [c0 addr jid|tpl ts extra ch d md|c0 k extra jid|c0 jid n x mb|c0]; cbn [step] in H; cbn in Hne.
   - assert (Hc0 : cid <> c0) by congruence.
     unfold do_login in H. cbv zeta in H. repeat dm H; try (injection H as <- <-; reflexivity).
     injection H as <- <-. cbn. rewrite nget_nset. destruct (cid =? c0) eqn:E; [apply N.eqb_eq in E; contradiction|reflexivity].
@@ -418,7 +414,7 @@ Proof.
     unfold do_notify in H. cbv zeta in H. repeat dm H; try (injection H as <- <-; reflexivity).
     injection H as <- <-. cbn. rewrite nget_nset. destruct (cid =? c0) eqn:E; [apply N.eqb_eq in E; contradiction|reflexivity].
   - assert (Hc0 : c0 <> cid) by congruence.
-    unfold do_submit in H. repeat dm H; try (injection H as <- <-; reflexivity); injection H as <- <-; apply Hk; exact Hc0.
+    unfold do_submit, submit_result, judge in H. repeat dm H; try (injection H as <- <-; reflexivity); injection H as <- <-; apply Hk; exact Hc0.
   - assert (Hc0 : c0 <> cid) by congruence. injection H as <- <-. apply Hk. exact Hc0.
 Qed.
 
@@ -427,7 +423,7 @@ Qed.
 Definition cfg_ok_stratum (c : config) : bool := 1 <=? stratum_jobs_history c.
 Hypothesis Hok : cfg_ok_stratum cfg = true.
 
-Definition jobkey (j : job) : N * blob := (j_id j, j_sent j).
+Definition jobkey (j : job) : N * adv := (j_id j, mkadv (j_sent j) (j_target j)).
 
 (* server side / miner's side of one connection *)
 Definition conn_view (c : conn) (v : mview) : Prop :=
@@ -444,11 +440,14 @@ Proof.
   destruct (Nat.leb (hist cfg) (length jobs)); [|reflexivity]. destruct jobs; reflexivity.
 Qed.
 
+Lemma judge_cases d r jd o : judge cfg pow d r jd = Some o -> o = OFound r jd \/ o = ORejectedLowDiff.
+Proof. unfold judge. destruct (pow_valid _ _) as [[|]|]; intros [= <-]; auto. Qed.
+
 Lemma step_views s g e s' o :
-  views_ok s g -> step cfg pow_ok s e = (s', o) -> views_ok s' (view_step g e o).
+  views_ok s g -> step cfg pow s e = (s', o) -> views_ok s' (view_step g e o).
 Proof.
   unfold views_ok. intros Hv H.
-  destruct e as [cid addr jid|tpl ts extra ch|cid k extra jid|cid jid n x mb|cid]; cbn [step] in H.
+  destruct e as [cid addr jid|tpl ts extra ch d md|cid k extra jid|cid jid n x mb|cid]; cbn [step] in H.
   - unfold do_login in H. cbv zeta in H. repeat dm H; try (injection H as <- <-; exact Hv).
     injection H as <- <-. cbn. apply instep_nset; [exact Hv|]. split; [reflexivity|]. cbn.
     pose proof hist_pos as Hp. unfold lastn. cbn. destruct (hist cfg); [lia|reflexivity].
@@ -456,36 +455,38 @@ Proof.
   - unfold do_notify in H. cbv zeta in H. repeat dm H; try (injection H as <- <-; exact Hv).
     injection H as <- <-. cbn.
     match goal with Hx : nget (s_conns s) cid = Some ?c |- _ => destruct (instep_nget_l _ _ _ _ _ Hv Hx) as (v & Hg & Ha & Hj) end.
-    rewrite Hg. apply instep_nset; [exact Hv|]. split; [exact Ha|]. cbn. apply (map_push _ (mkjob jid (s_next s) b0)). exact Hj.
-  - unfold do_submit in H. repeat dm H; try (injection H as <- <-; exact Hv);
-      injection H as <- <-; cbn; apply instep_ndel; exact Hv.
+    rewrite Hg. apply instep_nset; [exact Hv|]. split; [exact Ha|]. cbn. match goal with Ht : job_target _ = Some ?t |- _ => apply (map_push _ (mkjob jid (s_next s) (blob_seed cfg b0) b0 t)) end. exact Hj.
+  - unfold do_submit, submit_result in H. repeat dm H; try (injection H as <- <-; exact Hv);
+      try (injection H as <- <-; cbn; apply instep_ndel; exact Hv).
+    injection H as <- <-.
+    match goal with Hj : judge _ _ _ _ _ = Some _ |- _ => destruct (judge_cases _ _ _ _ Hj) as [-> | ->] end; exact Hv.
   - injection H as <- <-. cbn. apply instep_ndel. exact Hv.
 Qed.
 
 Lemma run_view_facts evs : forall s g s' g',
-  views_ok s g -> run_view cfg pow_ok s g evs = (s', g') ->
-  views_ok s' g' /\ exists os, run cfg pow_ok s evs = (s', os).
+  views_ok s g -> run_view cfg pow s g evs = (s', g') ->
+  views_ok s' g' /\ exists os, run cfg pow s evs = (s', os).
 Proof.
   induction evs as [|e r IH]; cbn; intros s g s' g' Hv H.
   - injection H as <- <-. split; [exact Hv|]. exists []. reflexivity.
-  - destruct (step cfg pow_ok s e) as [s1 o] eqn:Es.
+  - destruct (step cfg pow s e) as [s1 o] eqn:Es.
     destruct (IH _ _ _ _ (step_views _ _ _ _ _ Hv Es) H) as [Hv' [os Hr]]. split; [exact Hv'|].
     exists (o :: os). rewrite Hr. reflexivity.
 Qed.
 
-Lemma find_sent_map jobs jid sent :
-  find_sent (map jobkey jobs) jid = Some sent -> exists j, find_job jobs jid = Some j /\ j_sent j = sent.
+Lemma find_sent_map jobs jid a :
+  find_sent (map jobkey jobs) jid = Some a -> exists j, find_job jobs jid = Some j /\ j_sent j = a_sent a /\ j_target j = a_target a.
 Proof.
-  induction jobs as [|a r IH]; cbn; [discriminate|].
-  destruct (j_id a =? jid).
-  - intros [= <-]. exists a. split; reflexivity.
+  induction jobs as [|j0 r IH]; cbn; [discriminate|].
+  destruct (j_id j0 =? jid).
+  - intros [= <-]. exists j0. cbn. auto.
   - exact IH.
 Qed.
 
 (* T5: after any event list, what the server holds for a connection is what the miner was told: same address, and
    the held jobs are exactly the last STRATUM_JOBS_HISTORY jobs that were sent to it (ids and blobs) *)
 Lemma held_jobs_are_advertised evs s g cid :
-  run_view cfg pow_ok init_server [] evs = (s, g) ->
+  run_view cfg pow init_server [] evs = (s, g) ->
   (forall c, nget (s_conns s) cid = Some c -> exists v, nget g cid = Some v /\ conn_view c v) /\
   (forall v, nget g cid = Some v -> exists c, nget (s_conns s) cid = Some c /\ conn_view c v).
 Proof.
@@ -496,27 +497,29 @@ Proof.
 Qed.
 
 (* T6: the property in the miner's own terms.  After any interleaving of any number of miners, if the miner was sent
-   job jid with blob [sent] and the job is within the advertised history, then a well-formed submission is judged
-   against exactly the blob the miner hashed: a block paying the miner's login address when that blob meets the proof
-   of work, "low difficulty" only when it does not - never "unknown job"; and the server's state is unchanged. *)
-Lemma advertised_job_is_its_own evs s g cid v jid sent len n x :
-  run_view cfg pow_ok init_server [] evs = (s, g) ->
-  nget g cid = Some v -> advertised cfg v jid = Some sent -> 4 <= len ->
-  step cfg pow_ok s (ESubmit cid jid (NBytes len n) x MNone) =
-    (s, if pow_ok (miner_blob sent n x) then OFound (mv_addr v) (miner_blob sent n x) else ORejectedLowDiff).
+   job jid with blob [a_sent a] and the job is within the advertised history, then a well-formed submission is judged
+   against exactly the blob the miner hashed, under that blob's own seed, against the difficulty of one block (the
+   job's own, see advertised_target_is_jobs_own below): a block paying the miner's login address when the value meets
+   it, "low difficulty" only when it does not - never "unknown job"; and the server's state is unchanged. *)
+Lemma advertised_job_is_its_own evs s g cid v jid a len n x :
+  run_view cfg pow init_server [] evs = (s, g) ->
+  nget g cid = Some v -> advertised cfg v jid = Some a -> 4 <= len ->
+  exists d, step cfg pow s (ESubmit cid jid (NBytes len n) x MNone) =
+    submit_result s cid (judge cfg pow d (mv_addr v) (miner_blob (a_sent a) n x)).
 Proof.
   intros H Hg Ha Hlen. assert (H0 : views_ok init_server []) by constructor.
   destruct (run_view_facts _ _ _ _ _ H0 H) as [Hv [os Hr]].
   destruct (instep_nget_r _ _ _ _ _ Hv Hg) as (c & Hc & Haddr & Hjobs).
   unfold advertised in Ha. fold (hist cfg) in Ha. rewrite <- Hjobs in Ha.
-  destruct (find_sent_map _ _ _ Ha) as (j & Hf & <-).
+  destruct (find_sent_map _ _ _ Ha) as (j & Hf & <- & _).
   assert (Hre : reachable s) by (exists evs, os; exact Hr).
-  rewrite (submit_judged_against_sent_blob _ _ _ _ _ _ n x Hre Hc Hf Hlen). rewrite Haddr. reflexivity.
+  destruct (submit_judged_against_sent_blob _ _ _ _ _ _ n x Hre Hc Hf Hlen) as (b & _ & Hs).
+  exists (b_diff b). rewrite Hs, Haddr. reflexivity.
 Qed.
 
 (* every job the server sends (login answer or notification) describes a block paying the login address *)
-Lemma sent_job_pays_login evs s g e s' jid sent :
-  run_view cfg pow_ok init_server [] evs = (s, g) -> step cfg pow_ok s e = (s', OJob jid sent) ->
+Lemma sent_job_pays_login evs s g e s' jid sent t :
+  run_view cfg pow init_server [] evs = (s, g) -> step cfg pow s e = (s', OJob jid sent t) ->
   match e with
   | ELogin cid addr _ => pays cfg sent addr = true
   | ENotify cid _ _ _ => exists v, nget g cid = Some v /\ pays cfg sent (mv_addr v) = true
@@ -525,15 +528,16 @@ Lemma sent_job_pays_login evs s g e s' jid sent :
 Proof.
   intros H Hs. assert (H0 : views_ok init_server []) by constructor.
   destruct (run_view_facts _ _ _ _ _ H0 H) as [Hv _].
-  destruct e as [cid addr j|tpl ts extra ch|cid k extra j|cid j n x mb|cid]; cbn [step] in Hs.
-  - unfold do_login in Hs. cbv zeta in Hs. repeat dm Hs; try discriminate. injection Hs as _ _ <-.
+  destruct e as [cid addr j|tpl ts extra ch d md|cid k extra j|cid j n x mb|cid]; cbn [step] in Hs.
+  - unfold do_login in Hs. cbv zeta in Hs. repeat dm Hs; try discriminate. injection Hs as _ _ <- _.
     unfold pays. match goal with Hb : blob_of cfg _ = Some _ |- _ => rewrite (own_entry_blob_of _ _ Hb) end. cbn. apply N.eqb_refl.
   - unfold do_template in Hs. discriminate.
-  - unfold do_notify in Hs. cbv zeta in Hs. repeat dm Hs; try discriminate. injection Hs as _ _ <-.
+  - unfold do_notify in Hs. cbv zeta in Hs. repeat dm Hs; try discriminate. injection Hs as _ _ <- _.
     match goal with Hx : nget (s_conns s) cid = Some ?c |- _ => destruct (instep_nget_l _ _ _ _ _ Hv Hx) as (v & Hg & Ha & _) end.
     exists v. split; [exact Hg|]. unfold pays.
     match goal with Hb : blob_of cfg _ = Some _ |- _ => rewrite (own_entry_blob_of _ _ Hb) end. cbn. rewrite Ha. apply N.eqb_refl.
-  - unfold do_submit in Hs. repeat dm Hs; discriminate.
+  - unfold do_submit, submit_result in Hs. repeat dm Hs; try discriminate. injection Hs as _ ->.
+    match goal with Hj : judge _ _ _ _ _ = Some _ |- _ => destruct (judge_cases _ _ _ _ Hj); discriminate end.
   - discriminate.
 Qed.
 
@@ -616,54 +620,576 @@ Proof.
     rewrite Hs. discriminate.
 Qed.
 
-Lemma submit_never_panics s cid jid nonce x mb s' o :
-  reachable s -> step cfg pow_ok s (ESubmit cid jid nonce x mb) = (s', o) -> o <> OPanic.
+(* ---- the target sent with a job is the target of that job's own SendJob call ---- *)
+
+Lemma nget_app_l {V} (m : list (N * V)) k v q x : nget m q = Some x -> nget (m ++ [(k, v)]) q = Some x.
 Proof.
-  intros Hr H. cbn [step] in H. unfold do_submit in H.
+  unfold nget. induction m as [|[k' v'] r IH]; cbn; [discriminate|].
+  destruct (q =? k'); [auto|exact IH].
+Qed.
+
+Lemma nget_app_inv {V} (m : list (N * V)) k v q x :
+  nget (m ++ [(k, v)]) q = Some x -> nget m q = Some x \/ (q = k /\ x = v).
+Proof.
+  unfold nget. induction m as [|[k' v'] r IH]; cbn.
+  - destruct (q =? k) eqn:E; [|discriminate]. apply N.eqb_eq in E. intros [= <-]. right. auto.
+  - destruct (q =? k'); [auto|exact IH].
+Qed.
+
+Lemma nget_app_new {V} (m : list (N * V)) k v : nget m k = None -> nget (m ++ [(k, v)]) k = Some v.
+Proof.
+  unfold nget. induction m as [|[k' v'] r IH]; cbn.
+  - rewrite N.eqb_refl. reflexivity.
+  - destruct (k =? k'); [discriminate|exact IH].
+Qed.
+
+(* what a step does to the list of SendJob calls: nothing, or one more call numbered length + 1 *)
+Lemma step_tpls s e s' o :
+  step cfg pow s e = (s', o) ->
+  s_tpls s' = s_tpls s \/
+  exists tpl ts extra ch d md, e = ETemplate tpl ts extra ch d md /\
+    s_tpls s' = s_tpls s ++ [(N.of_nat (length (s_tpls s)) + 1, (s_next s, md))].
+Proof.
+  intros H. destruct e as [cid addr jid|tpl ts extra ch d md|cid k extra jid|cid jid n x mb|cid]; cbn [step] in H.
+  - left. unfold do_login in H. cbv zeta in H. repeat dm H; injection H as <- _; reflexivity.
+  - right. unfold do_template in H. injection H as <- _. exists tpl, ts, extra, ch, d, md. split; reflexivity.
+  - left. unfold do_notify in H. cbv zeta in H. repeat dm H; injection H as <- _; reflexivity.
+  - left. unfold do_submit, submit_result in H. repeat dm H; injection H as <- _; reflexivity.
+  - left. injection H as <- _. reflexivity.
+Qed.
+
+(* the calls are numbered 1 .. length *)
+Definition tpls_dom (s : server) : Prop :=
+  forall q x, nget (s_tpls s) q = Some x -> q <= N.of_nat (length (s_tpls s)).
+
+Lemma step_tpls_dom s e s' o : tpls_dom s -> step cfg pow s e = (s', o) -> tpls_dom s'.
+Proof.
+  intros Hd H. destruct (step_tpls _ _ _ _ H) as [E|(tpl & ts & extra & ch & d & md & _ & E)]; unfold tpls_dom; rewrite E.
+  - exact Hd.
+  - intros q x Hq. rewrite app_length. cbn [length]. apply nget_app_inv in Hq. destruct Hq as [Hq|[-> _]].
+    + apply Hd in Hq. lia.
+    + lia.
+Qed.
+
+(* what a call captured is never changed by later events *)
+Lemma step_tpls_stable s e s' o k x :
+  step cfg pow s e = (s', o) -> nget (s_tpls s) k = Some x -> nget (s_tpls s') k = Some x.
+Proof.
+  intros H Hk. destruct (step_tpls _ _ _ _ H) as [E|(tpl & ts & extra & ch & d & md & _ & E)]; rewrite E.
+  - exact Hk.
+  - apply nget_app_l. exact Hk.
+Qed.
+
+Lemma run_tpls evs : forall s s' os,
+  tpls_dom s -> run cfg pow s evs = (s', os) ->
+  tpls_dom s' /\ (forall k x, nget (s_tpls s) k = Some x -> nget (s_tpls s') k = Some x).
+Proof.
+  induction evs as [|e r IH]; cbn; intros s s' os Hd H.
+  - injection H as <- _. split; [exact Hd|auto].
+  - destruct (step cfg pow s e) as [s1 o] eqn:Es. destruct (run cfg pow s1 r) as [s2 os2] eqn:Er.
+    injection H as <- _. destruct (IH _ _ _ (step_tpls_dom _ _ _ _ Hd Es) Er) as [Hd2 Hst].
+    split; [exact Hd2|]. intros k x Hk. apply Hst. exact (step_tpls_stable _ _ _ _ _ _ Es Hk).
+Qed.
+
+Lemma tpls_dom_init : tpls_dom init_server.
+Proof. intros q x H. discriminate. Qed.
+
+(* the critical section SendJob call k runs for a connection sends the target of the difficulty passed to call k *)
+Lemma notify_target_is_calls_own s cid k extra jid s' sent t :
+  step cfg pow s (ENotify cid k extra jid) = (s', OJob jid sent t) ->
+  exists p d c b, nget (s_tpls s) k = Some (p, d) /\ job_target d = Some t /\ nget (s_conns s) cid = Some c /\
+    nget (s_heap s) p = Some b /\ own_entry cfg sent = Some (Own (b_tpl b) (c_addr c)).
+Proof.
+  intros H. cbn [step] in H. unfold do_notify in H. cbv zeta in H. repeat dm H; try discriminate.
+  injection H as _ <- <-.
+  match goal with Hb : blob_of cfg _ = Some _ |- _ => pose proof (own_entry_blob_of _ _ Hb) as Ho end. cbn in Ho.
+  do 4 eexists. repeat split; eassumption.
+Qed.
+
+(* the login answer carries the target of the difficulty stored with the template it copies (LastMinDiff, written
+   together with LastBlock) *)
+Lemma login_target_is_last_calls s cid addr jid s' sent t :
+  step cfg pow s (ELogin cid addr jid) = (s', OJob jid sent t) ->
+  exists p d b, s_last s = Some (p, d) /\ job_target d = Some t /\
+    nget (s_heap s) p = Some b /\ own_entry cfg sent = Some (Own (b_tpl b) addr).
+Proof.
+  intros H. cbn [step] in H. unfold do_login in H. cbv zeta in H. repeat dm H; try discriminate.
+  injection H as _ <- <-.
+  match goal with Hb : blob_of cfg _ = Some _ |- _ => pose proof (own_entry_blob_of _ _ Hb) as Ho end. cbn in Ho.
+  do 3 eexists. repeat split; eassumption.
+Qed.
+
+(* THE TARGET OF A JOB IS ITS OWN, for every interleaving: take any history, then the k-th call SendJob(bl, md) with a
+   template of content tpl, then ANY further events (later calls of SendJob with other difficulties, logins,
+   notifications, submissions, disconnections), then the critical section of call k for connection cid: the target it
+   sends is the target of md, and the blob it sends names the content tpl of that same call *)
+Lemma broadcast_target_is_its_own evs1 s1 os1 tpl ts extra ch d md s1' evs2 s2 os2 cid x jid s3 sent t :
+  run cfg pow init_server evs1 = (s1, os1) ->
+  step cfg pow s1 (ETemplate tpl ts extra ch d md) = (s1', ONone) ->
+  run cfg pow s1' evs2 = (s2, os2) ->
+  step cfg pow s2 (ENotify cid (N.of_nat (length (s_tpls s1)) + 1) x jid) = (s3, OJob jid sent t) ->
+  job_target md = Some t /\ exists c, nget (s_conns s2) cid = Some c /\ own_entry cfg sent = Some (Own tpl (c_addr c)).
+Proof.
+  intros H1 Ht H2 Hn.
+  destruct (run_facts _ _ _ _ inv_init H1) as [Hi1 _].
+  destruct (run_tpls _ _ _ _ tpls_dom_init H1) as [Hd1 _].
+  destruct (step_facts _ _ _ _ Hi1 Ht) as [Hi1' _].
+  pose proof (step_tpls_dom _ _ _ _ Hd1 Ht) as Hd1'.
+  destruct (run_facts _ _ _ _ Hi1' H2) as [_ Hle2].
+  destruct (run_tpls _ _ _ _ Hd1' H2) as [_ Hst2].
+  set (k := N.of_nat (length (s_tpls s1)) + 1) in *.
+  assert (Hk1 : nget (s_tpls s1') k = Some (s_next s1, md)).
+  { cbn [step] in Ht. unfold do_template in Ht. injection Ht as <-. cbn [s_tpls]. apply nget_app_new.
+    destruct (nget (s_tpls s1) k) as [y|] eqn:E; [|reflexivity]. apply Hd1 in E. unfold k in E. lia. }
+  assert (Hp1 : nget (s_heap s1') (s_next s1) = Some (mkblk tpl 0 ts extra 0 ch d)).
+  { cbn [step] in Ht. unfold do_template in Ht. injection Ht as <-. cbn [s_heap]. rewrite nget_nset, N.eqb_refl. reflexivity. }
+  destruct (notify_target_is_calls_own _ _ _ _ _ _ _ _ Hn) as (p & d' & c & b & Hk & Htg & Hc & Hb & Ho).
+  rewrite (Hst2 _ _ Hk1) in Hk. injection Hk as <- <-.
+  rewrite (Hle2 _ _ Hp1) in Hb. injection Hb as <-. cbn in Ho.
+  split; [exact Htg|]. exists c. split; assumption.
+Qed.
+
+(* ---- difficulties as GetBlockTemplate produces them outside the masterchain ----
+   Block.Difficulty is at least 1 (C08: GetNextDifficulty returns at least MIN_DIFFICULTY), fits 64 bits (util.GetTarget
+   reads the low word only, C08_get_target_refuted) and is the minimum difficulty passed to SendJob (GetBlockTemplate
+   lowers min_diff only for merge-mined chains, which exist on the masterchain only). *)
+Definition tpl_ok (e : event) : Prop :=
+  match e with ETemplate _ _ _ _ d md => 1 <= d /\ d < two64 /\ md = d | _ => True end.
+
+Definition diff_ok (d : N) : Prop := 1 <= d /\ d < two64.
+
+Lemma job_target_spec d : diff_ok d -> job_target d = Some (max_u64 / d).
+Proof. intros [H1 H2]. unfold job_target. rewrite get_target_partial by assumption. reflexivity. Qed.
+
+Lemma pow_valid_spec val d : diff_ok d -> pow_valid val d = Some (val <=? (two128 - 1) / d).
+Proof.
+  intros [H1 H2]. unfold pow_valid. rewrite valid_pow_value_spec; [reflexivity|exact H1|].
+  unfold two64, two128 in *. lia.
+Qed.
+
+(* a value that meets the target of a difficulty (in the reading of the code: ByteTargetToDiff, then the 128-bit
+   comparison) meets the difficulty *)
+Lemma meets_target_meets_diff val d :
+  diff_ok d -> meets_target val (max_u64 / d) = true -> (val <=? (two128 - 1) / d) = true.
+Proof.
+  intros [H1 H2] Hm. unfold meets_target, target_diff in Hm.
+  assert (Ht : 1 <= max_u64 / d).
+  { apply N.div_le_lower_bound; unfold max_u64, two64 in *; lia. }
+  destruct (N.eqb_spec (max_u64 / d) 0) as [E|_]; [lia|].
+  apply N.leb_le in Hm. apply N.leb_le.
+  assert (Hd : d <= max_u64 / (max_u64 / d)).
+  { apply N.div_le_lower_bound; [lia|]. rewrite N.mul_comm. apply N.mul_div_le. lia. }
+  etransitivity; [exact Hm|]. apply N.div_le_compat_l. lia.
+Qed.
+
+(* the second invariant: every block has a well-formed difficulty; what a SendJob call captured and what LastMinDiff
+   holds is the difficulty of the block captured / stored with it; the target recorded with a job is the target of the
+   difficulty of the job's own block *)
+Definition heap_diff_ok (h : heap) : Prop := forall p b, nget h p = Some b -> diff_ok (b_diff b).
+Definition tpls_ok (h : heap) (t : list (N * (N * N))) : Prop :=
+  forall k p d, nget t k = Some (p, d) -> exists b, nget h p = Some b /\ b_diff b = d.
+Definition last_ok (h : heap) (l : option (N * N)) : Prop :=
+  match l with Some (p, d) => exists b, nget h p = Some b /\ b_diff b = d | None => True end.
+Definition job_tok (h : heap) (j : job) : Prop :=
+  exists b, nget h (j_ptr j) = Some b /\ job_target (b_diff b) = Some (j_target j).
+Definition conns_tok (h : heap) (m : list (N * conn)) : Prop := Forall (fun kc => Forall (job_tok h) (c_jobs (snd kc))) m.
+Definition TInv (s : server) : Prop :=
+  heap_diff_ok (s_heap s) /\ tpls_ok (s_heap s) (s_tpls s) /\ last_ok (s_heap s) (s_last s) /\ conns_tok (s_heap s) (s_conns s).
+
+Lemma tinv_init : TInv init_server.
+Proof.
+  split; [intros p b H; discriminate|]. split; [intros k p d H; discriminate|]. split; [exact I|constructor].
+Qed.
+
+Lemma tpls_ok_mono h h' t : heap_le h h' -> tpls_ok h t -> tpls_ok h' t.
+Proof. intros Hle Ht k p d Hk. destruct (Ht _ _ _ Hk) as (b & Hb & Hd). exists b. split; [exact (Hle _ _ Hb)|exact Hd]. Qed.
+
+Lemma last_ok_mono h h' l : heap_le h h' -> last_ok h l -> last_ok h' l.
+Proof. intros Hle. destruct l as [[p d]|]; [|auto]. intros (b & Hb & Hd). exists b. split; [exact (Hle _ _ Hb)|exact Hd]. Qed.
+
+Lemma job_tok_mono h h' j : heap_le h h' -> job_tok h j -> job_tok h' j.
+Proof. intros Hle (b & Hb & Ht). exists b. split; [exact (Hle _ _ Hb)|exact Ht]. Qed.
+
+Lemma conns_tok_mono h h' m : heap_le h h' -> conns_tok h m -> conns_tok h' m.
+Proof.
+  intros Hle Hm. eapply Forall_impl; [|exact Hm]. intros kc Hj. eapply Forall_impl; [|exact Hj].
+  intros j. apply job_tok_mono. exact Hle.
+Qed.
+
+Lemma heap_diff_ok_alloc h n b : heap_diff_ok h -> diff_ok (b_diff b) -> heap_diff_ok (nset h n b).
+Proof.
+  intros Hh Hb p b0. rewrite nget_nset. destruct (p =? n); [intros [= <-]; exact Hb|apply Hh].
+Qed.
+
+Lemma nget_conn_tok h m cid c : conns_tok h m -> nget m cid = Some c -> Forall (job_tok h) (c_jobs c).
+Proof.
+  intros Hm Hg. apply nget_In in Hg. unfold conns_tok in Hm. rewrite Forall_forall in Hm. exact (Hm _ Hg).
+Qed.
+
+Lemma tinv_kick s cid : TInv s -> TInv (kick s cid).
+Proof.
+  intros (H1 & H2 & H3 & H4). split; [exact H1|]. split; [exact H2|]. split; [exact H3|]. cbn. apply Forall_ndel. exact H4.
+Qed.
+
+Ltac tsame :=
+  unfold TInv; try match goal with Hx : s_last _ = _ |- _ => rewrite Hx end;
+  (split; [assumption|split; [assumption|split; assumption]]).
+
+Lemma step_tfacts s e s' o :
+  Inv s -> TInv s -> tpl_ok e -> step cfg pow s e = (s', o) -> TInv s'.
+Proof.
+  intros [Hb Hc] (Hh & Ht & Hl & Hj) Hev H.
+  destruct e as [cid addr jid|tpl ts extra ch d md|cid k extra jid|cid jid n x mb|cid]; cbn [step] in H.
+  - (* login *)
+    unfold do_login in H. cbv zeta in H. repeat dm H; try (injection H as <- _; tsame).
+    injection H as <- _. cbn.
+    cbn in Hl. destruct Hl as (b1 & Hb1 & Hd1).
+    match goal with Hx : nget (s_heap s) _ = Some b |- _ => rewrite Hx in Hb1; injection Hb1 as <- end.
+    pose proof (heap_le_alloc _ _ (mkblk (b_tpl b) addr (b_ts b) (b_extra b) (b_nonce b) (b_chains b) (b_diff b)) Hb) as Hle.
+    unfold TInv. cbn. match goal with Hx : s_last s = Some _ |- _ => rewrite Hx end.
+    split; [|split; [|split]].
+    + apply heap_diff_ok_alloc; [exact Hh|]. cbn. match goal with Hx : nget (s_heap s) _ = Some b |- _ => exact (Hh _ _ Hx) end.
+    + exact (tpls_ok_mono _ _ _ Hle Ht).
+    + cbn. exists b. split; [|exact Hd1]. apply Hle. assumption.
+    + apply Forall_nset; [exact (conns_tok_mono _ _ _ Hle Hj)|]. cbn. constructor; [|constructor].
+      eexists. cbn. rewrite nget_nset, N.eqb_refl. split; [reflexivity|]. cbn. rewrite Hd1. assumption.
+  - (* template *)
+    unfold do_template in H. injection H as <- _. cbn. cbn in Hev. destruct Hev as (Hd1 & Hd2 & ->).
+    pose proof (heap_le_alloc _ _ (mkblk tpl 0 ts extra 0 ch d) Hb) as Hle.
+    unfold TInv. cbn. split; [|split; [|split]].
+    + apply heap_diff_ok_alloc; [exact Hh|]. cbn. split; assumption.
+    + intros k p d0 Hk. apply nget_app_inv in Hk. destruct Hk as [Hk|[_ Hk]].
+      * destruct (Ht _ _ _ Hk) as (b & Hb1 & Hd). exists b. split; [exact (Hle _ _ Hb1)|exact Hd].
+      * injection Hk as -> ->. eexists. rewrite nget_nset, N.eqb_refl. split; reflexivity.
+    + eexists. rewrite nget_nset, N.eqb_refl. split; reflexivity.
+    + exact (conns_tok_mono _ _ _ Hle Hj).
+  - (* notify *)
+    unfold do_notify in H. cbv zeta in H. repeat dm H; try (injection H as <- _; tsame).
+    injection H as <- _. cbn.
+    match goal with Hx : nget (s_tpls s) k = Some _ |- _ => destruct (Ht _ _ _ Hx) as (b1 & Hb1 & Hd1) end.
+    match goal with Hx : nget (s_heap s) _ = Some b |- _ => rewrite Hx in Hb1; injection Hb1 as <- end.
+    pose proof (heap_le_alloc _ _ (mkblk (b_tpl b) (c_addr c) (b_ts b) extra (b_nonce b) (b_chains b) (b_diff b)) Hb) as Hle.
+    unfold TInv. cbn. split; [|split; [|split]].
+    + apply heap_diff_ok_alloc; [exact Hh|]. cbn. match goal with Hx : nget (s_heap s) _ = Some b |- _ => exact (Hh _ _ Hx) end.
+    + exact (tpls_ok_mono _ _ _ Hle Ht).
+    + exact (last_ok_mono _ _ _ Hle Hl).
+    + apply Forall_nset; [exact (conns_tok_mono _ _ _ Hle Hj)|]. cbn.
+      match goal with Hx : nget (s_conns s) cid = Some c |- _ => pose proof (nget_conn_tok _ _ _ _ Hj Hx) as Hjc end.
+      apply Forall_push.
+      * eapply Forall_impl; [|exact Hjc]. intros j. apply job_tok_mono. exact Hle.
+      * eexists. cbn. rewrite nget_nset, N.eqb_refl. split; [reflexivity|]. cbn. rewrite Hd1. assumption.
+  - (* submit *)
+    unfold do_submit, submit_result in H. repeat dm H; try (injection H as <- _; tsame);
+      injection H as <- _; apply tinv_kick; tsame.
+  - injection H as <- _. apply tinv_kick; tsame.
+Qed.
+
+Lemma run_tfacts evs : forall s s' os,
+  Forall tpl_ok evs -> Inv s -> TInv s -> run cfg pow s evs = (s', os) -> TInv s'.
+Proof.
+  induction evs as [|e r IH]; cbn; intros s s' os Hf Hi Hti H.
+  - injection H as <- _. exact Hti.
+  - destruct (step cfg pow s e) as [s1 o] eqn:Es. destruct (run cfg pow s1 r) as [s2 os2] eqn:Er.
+    injection H as <- _. inversion Hf as [|? ? He Hr]; subst.
+    apply (IH _ _ _ Hr (proj1 (step_facts _ _ _ _ Hi Es)) (step_tfacts _ _ _ _ Hi Hti He Es) Er).
+Qed.
+
+(* reachable through events whose templates have well-formed difficulties *)
+Definition reachable_ok (s : server) : Prop :=
+  exists evs os, Forall tpl_ok evs /\ run cfg pow init_server evs = (s, os).
+
+Lemma reachable_ok_reachable s : reachable_ok s -> reachable s.
+Proof. intros (evs & os & _ & H). exists evs, os. exact H. Qed.
+
+Lemma reachable_ok_tinv s : reachable_ok s -> TInv s.
+Proof. intros (evs & os & Hf & H). exact (run_tfacts _ _ _ _ Hf inv_init tinv_init H). Qed.
+
+(* T7: the target recorded (sent) with a job a connection holds is the target of the difficulty of the job's own
+   block - the block the submission will be judged against *)
+Lemma job_target_is_of_own_block s cid c j :
+  reachable_ok s -> nget (s_conns s) cid = Some c -> In j (c_jobs c) ->
+  exists b, nget (s_heap s) (j_ptr j) = Some b /\ 1 <= b_diff b /\ b_diff b < two64 /\ j_target j = max_u64 / b_diff b.
+Proof.
+  intros Hr Hc Hin. destruct (reachable_ok_tinv _ Hr) as (Hh & _ & _ & Hj).
+  pose proof (nget_conn_tok _ _ _ _ Hj Hc) as Hjc. rewrite Forall_forall in Hjc.
+  destruct (Hjc _ Hin) as (b & Hb & Ht). exists b. split; [exact Hb|].
+  destruct (Hh _ _ Hb) as [H1 H2]. split; [exact H1|]. split; [exact H2|].
+  rewrite job_target_spec in Ht by (split; assumption). congruence.
+Qed.
+
+(* T8: A VALID SHARE IS NEVER REJECTED.  Whatever is submitted for a job the connection holds - any nonce, extra nonce
+   and merge-mining blob the server can complete to a block jb whose mining blob is [judged], in whatever seed period
+   the timestamp of that blob lies -: when the proof-of-work value of the judged blob UNDER THE JUDGED BLOB'S OWN SEED
+   meets the target that was sent with the job, the block is found (handed to the chain, paying the login address) *)
+Lemma share_meeting_target_found s cid c jid j len n x mb b jb judged :
+  reachable_ok s -> nget (s_conns s) cid = Some c -> find_job (c_jobs c) jid = Some j -> 4 <= len ->
+  nget (s_heap s) (j_ptr j) = Some b -> complete cfg b n x mb = CBlock jb -> blob_of cfg jb = Some judged ->
+  meets_target (pow (blob_seed cfg judged) judged) (j_target j) = true ->
+  step cfg pow s (ESubmit cid jid (NBytes len n) x mb) = (s, OFound (c_addr c) judged).
+Proof.
+  intros Hr Hc Hf Hlen Hb Hcm Hj Hm. destruct (find_job_In _ _ _ Hf) as [Hin _].
+  destruct (job_target_is_of_own_block _ _ _ _ Hr Hc Hin) as (b' & Hb' & H1 & H2 & Ht).
+  rewrite Hb in Hb'. injection Hb' as <-.
+  destruct (reachable_job_ok _ _ _ _ (reachable_ok_reachable _ Hr) Hc Hin) as (b' & Hb' & Hrc & _).
+  rewrite Hb in Hb'. injection Hb' as <-.
+  destruct (complete_keeps _ _ _ _ _ Hcm) as (_ & Hrcp & Hdf).
+  cbn [step]. unfold do_submit. rewrite Hc.
+  destruct (len <? 4) eqn:E; [apply N.ltb_lt in E; lia|]. rewrite Hf, Hb, Hcm, Hj.
+  unfold submit_result, judge. rewrite Hdf, Hrcp, Hrc.
+  rewrite pow_valid_spec by (split; assumption).
+  rewrite Ht in Hm. rewrite (meets_target_meets_diff _ _ (conj H1 H2) Hm). reflexivity.
+Qed.
+
+(* ... in the miner's own terms, for a submission without merge-mining blob: the job is within the advertised history,
+   the blob is the one that was sent with the miner's nonce and extra nonce, the target is the one that was sent *)
+Lemma advertised_share_found evs s g cid v jid a len n x :
+  Forall tpl_ok evs -> run_view cfg pow init_server [] evs = (s, g) ->
+  nget g cid = Some v -> advertised cfg v jid = Some a -> 4 <= len ->
+  meets_target (pow (blob_seed cfg (miner_blob (a_sent a) n x)) (miner_blob (a_sent a) n x)) (a_target a) = true ->
+  step cfg pow s (ESubmit cid jid (NBytes len n) x MNone) = (s, OFound (mv_addr v) (miner_blob (a_sent a) n x)).
+Proof.
+  intros Hf H Hg Ha Hlen Hm. assert (H0 : views_ok init_server []) by constructor.
+  destruct (run_view_facts _ _ _ _ _ H0 H) as [Hv [os Hr]].
+  destruct (instep_nget_r _ _ _ _ _ Hv Hg) as (c & Hc & Haddr & Hjobs).
+  unfold advertised in Ha. fold (hist cfg) in Ha. rewrite <- Hjobs in Ha.
+  destruct (find_sent_map _ _ _ Ha) as (j & Hfj & Hs & Ht).
+  assert (Hre : reachable_ok s) by (exists evs, os; split; assumption).
+  destruct (find_job_In _ _ _ Hfj) as [Hin _].
+  destruct (reachable_job_ok _ _ _ _ (reachable_ok_reachable _ Hre) Hc Hin) as (b & Hb & Hrc & Hbl).
+  rewrite <- Haddr, <- Hs. rewrite <- Hs, <- Ht in Hm.
+  destruct (blob_of_fields _ _ Hbl) as (Hts & Hex & Hno).
+  set (e := match x with XBytes l v => if l =? 16 then v else b_extra b | XNone => b_extra b end).
+  assert (Hmb : miner_blob (j_sent j) n x = mkblob (mb_ts (j_sent j)) e n (mb_chains (j_sent j))).
+  { unfold miner_blob, e. rewrite Hex. reflexivity. }
+  apply (share_meeting_target_found s cid c jid j len n x MNone b
+           (mkblk (b_tpl b) (b_rcp b) (b_ts b) e n (b_chains b) (b_diff b))); try assumption.
+  - reflexivity.
+  - rewrite Hmb. apply blob_of_renonce. exact Hbl.
+Qed.
+
+(* a submission - any nonce text, extra nonce, merge-mining blob, job id - never takes a panicking branch *)
+Lemma submit_never_panics s cid jid nonce x mb s' o :
+  reachable_ok s -> step cfg pow s (ESubmit cid jid nonce x mb) = (s', o) -> o <> OPanic.
+Proof.
+  intros Hro H. pose proof (reachable_ok_reachable _ Hro) as Hr. cbn [step] in H. unfold do_submit in H.
   destruct (nget (s_conns s) cid) as [c|] eqn:Hc; [|injection H as _ <-; discriminate].
   destruct nonce as [|len n]; [injection H as _ <-; discriminate|].
   destruct (len <? 4); [injection H as _ <-; discriminate|].
   destruct (find_job (c_jobs c) jid) as [j|] eqn:Hf; [|injection H as _ <-; discriminate].
   destruct (find_job_In _ _ _ Hf) as [Hin _].
   destruct (reachable_job_ok _ _ _ _ Hr Hc Hin) as (b & H1 & H2 & H3). rewrite H1 in H.
+  destruct (job_target_is_of_own_block _ _ _ _ Hro Hc Hin) as (b' & Hb' & Hd1 & Hd2 & _).
+  rewrite H1 in Hb'. injection Hb' as <-.
   destruct (complete cfg b n x mb) as [jb|] eqn:Hcm; [|injection H as _ <-; discriminate].
   pose proof (complete_blob_of _ _ _ _ _ _ H3 Hcm) as Hnn.
+  destruct (complete_keeps _ _ _ _ _ Hcm) as (_ & _ & Hdf).
   destruct (blob_of cfg jb) as [jd|]; [|contradiction].
-  injection H as _ <-. destruct (pow_ok jd); discriminate.
+  unfold submit_result, judge in H. rewrite Hdf in H. rewrite pow_valid_spec in H by (split; assumption).
+  destruct (_ <=? _); injection H as _ <-; discriminate.
+Qed.
+
+(* ---- a merge-mining blob that names the job's own hashing id is reconstructed exactly ---- *)
+
+Lemma insert_chain_head x l : asc (x :: l) -> insert_chain x l = Some (x :: l).
+Proof.
+  destruct l as [|y r]; cbn; intros [Hx Ha]; [reflexivity|].
+  specialize (Hx y (or_introl eq_refl)). apply N.ltb_lt in Hx. rewrite Hx. reflexivity.
+Qed.
+
+Lemma asc_tail x l : asc (x :: l) -> asc l.
+Proof. intros [_ H]. exact H. Qed.
+
+Lemma sort_tail_own own post : asc (own :: post) -> sort_chains (post ++ [own]) = Some (own :: post).
+Proof.
+  induction post as [|y p IH]; intros Ha; [reflexivity|].
+  destruct Ha as [Ho Hyp]. cbn [app sort_chains].
+  rewrite IH.
+  - cbn [insert_chain]. assert (Hlt : fst own < fst y) by (apply Ho; left; reflexivity).
+    destruct (N.ltb_spec (fst y) (fst own)); [lia|]. apply N.ltb_lt in Hlt. rewrite Hlt.
+    rewrite (insert_chain_head y p Hyp). reflexivity.
+  - split; [|exact (asc_tail _ _ Hyp)]. intros z Hz. apply Ho. right. exact Hz.
+Qed.
+
+Lemma asc_app_r pre l : asc (pre ++ l) -> asc l.
+Proof. induction pre as [|x r IH]; cbn; [auto|]. intros [_ H]. exact (IH H). Qed.
+
+Lemma sort_mid pre own post : asc (pre ++ own :: post) -> sort_chains (pre ++ post ++ [own]) = Some (pre ++ own :: post).
+Proof.
+  induction pre as [|x r IH]; intros Ha.
+  - apply sort_tail_own. exact Ha.
+  - cbn [app sort_chains]. rewrite (IH (asc_tail _ _ Ha)). apply insert_chain_head. exact Ha.
+Qed.
+
+Definition others (nid : N) (l : list chain) : list chain := filter (fun v : chain => negb (fst v =? nid)) l.
+
+Lemma others_all nid l : (forall v, In v l -> fst v <> nid) -> others nid l = l.
+Proof.
+  induction l as [|v r IH]; cbn; intros H; [reflexivity|].
+  destruct (N.eqb_spec (fst v) nid) as [E|_]; [exfalso; exact (H v (or_introl eq_refl) E)|].
+  cbn [negb]. fold (others nid r). rewrite IH; [reflexivity|]. intros z Hz. apply H. right. exact Hz.
+Qed.
+
+Lemma smb_loop_spec nid l : forall first last contains acc oc,
+  smb_loop nid l first last contains acc = Some oc ->
+  oc = acc ++ others nid l /\ asc l /\ (first = false -> forall v, In v l -> last < fst v) /\
+  ((contains = true /\ forall v, In v l -> fst v <> nid) \/
+   (contains = false /\ exists pre own post, l = pre ++ own :: post /\ fst own = nid /\ forall v, In v (pre ++ post) -> fst v <> nid)).
+Proof.
+  induction l as [|v r IH]; cbn [smb_loop]; intros first last contains acc oc H.
+  - destruct contains; [|discriminate]. injection H as <-. cbn. rewrite app_nil_r.
+    split; [reflexivity|]. split; [exact I|]. split; [intros _ z []|]. left. split; [reflexivity|intros z []].
+  - destruct (negb first && (fst v <=? last)) eqn:E1; [discriminate|].
+    assert (Hfl : first = false -> last < fst v).
+    { intros ->. cbn in E1. apply N.leb_gt in E1. exact E1. }
+    destruct (fst v =? nid) eqn:E2; cbn [negb] in H.
+    + destruct contains; [discriminate|]. apply N.eqb_eq in E2.
+      destruct (IH _ _ _ _ _ H) as (Hoc & Ha & Hl & Hc).
+      destruct Hc as [[_ Hno]|[Hf _]]; [|discriminate].
+      split. { rewrite Hoc. cbn. apply N.eqb_eq in E2. rewrite E2. reflexivity. }
+      split. { split; [|exact Ha]. intros y Hy. exact (Hl eq_refl y Hy). }
+      split. { intros Hf z [<-|Hz]; [exact (Hfl Hf)|]. specialize (Hl eq_refl z Hz). specialize (Hfl Hf). lia. }
+      right. split; [reflexivity|]. exists [], v, r. split; [reflexivity|]. split; [exact E2|exact Hno].
+    + destruct (existsb _ acc); [discriminate|]. apply N.eqb_neq in E2.
+      destruct (IH _ _ _ _ _ H) as (Hoc & Ha & Hl & Hc).
+      split. { rewrite Hoc. cbn. destruct (N.eqb_spec (fst v) nid); [contradiction|]. cbn. rewrite <- app_assoc. reflexivity. }
+      split. { split; [|exact Ha]. intros y Hy. exact (Hl eq_refl y Hy). }
+      split. { intros Hf z [<-|Hz]; [exact (Hfl Hf)|]. specialize (Hl eq_refl z Hz). specialize (Hfl Hf). lia. }
+      destruct Hc as [[Hct Hno]|[Hcf (pre & own & post & Hr & Ho & Hno)]].
+      * left. split; [exact Hct|]. intros z [<-|Hz]; [exact E2|exact (Hno z Hz)].
+      * right. split; [exact Hcf|]. exists (v :: pre), own, post. split; [rewrite Hr; reflexivity|]. split; [exact Ho|].
+        intros z [<-|Hz]; [exact E2|exact (Hno z Hz)].
+Qed.
+
+Lemma others_split nid pre own post :
+  fst own = nid -> (forall v, In v (pre ++ post) -> fst v <> nid) -> others nid (pre ++ own :: post) = pre ++ post.
+Proof.
+  intros Ho Hno. unfold others. rewrite filter_app. cbn [filter]. apply N.eqb_eq in Ho. rewrite Ho. cbn [negb].
+  pose proof (others_all nid pre) as Hp. pose proof (others_all nid post) as Hq. unfold others in Hp, Hq.
+  f_equal; [apply Hp|apply Hq]; intros z Hz; apply Hno; apply in_or_app; auto.
+Qed.
+
+Lemma find_skip (nid : N) pre (own : chain) post :
+  fst own = nid -> (forall v, In v pre -> fst v <> nid) ->
+  find (fun c : chain => fst c =? nid) (pre ++ own :: post) = Some own.
+Proof.
+  intros Ho Hno. induction pre as [|y r IH]; cbn.
+  - apply N.eqb_eq in Ho. rewrite Ho. reflexivity.
+  - destruct (N.eqb_spec (fst y) nid) as [E|_]; [exfalso; exact (Hno y (or_introl eq_refl) E)|].
+    apply IH. intros z Hz. apply Hno. right. exact Hz.
+Qed.
+
+(* Block.SetMiningBlob followed by Commitment().MiningBlob(): a blob the block accepts and that names, for this
+   chain, the block's own hashing id comes back as it was *)
+Lemma set_mining_blob_exact b m b1 :
+  set_mining_blob cfg b m = Some b1 -> own_entry cfg m = Some (Own (b_tpl b) (b_rcp b)) -> blob_of cfg b1 = Some m.
+Proof.
+  unfold set_mining_blob. destruct (smb_loop _ _ _ _ _ _) as [oc|] eqn:E; [|discriminate]. intros [= <-] Hown.
+  destruct (smb_loop_spec _ _ _ _ _ _ _ E) as (Hoc & Ha & _ & Hc). cbn [app] in Hoc.
+  destruct Hc as [[Hf _]|[_ (pre & own & post & Hl & Ho & Hno)]]; [discriminate|].
+  unfold own_entry in Hown. rewrite Hl in Hown.
+  match type of Hown with match ?f with _ => _ end = _ =>
+    assert (Hff : f = Some own) by (apply find_skip; [exact Ho|intros z Hz; apply Hno; apply in_or_app; auto]);
+    rewrite Hff in Hown end.
+  injection Hown as Hs.
+  assert (Hown : own = (network_id cfg, Own (b_tpl b) (b_rcp b))) by (destruct own; cbn in *; congruence).
+  unfold blob_of. cbn [b_chains b_tpl b_rcp b_ts b_extra b_nonce].
+  assert (Hoc' : oc = pre ++ post) by (rewrite Hoc, Hl; apply others_split; assumption).
+  rewrite Hoc', <- app_assoc, <- Hown.
+  rewrite Hl in Ha. pose proof (sort_mid pre own post Ha) as Hsm.
+  match goal with |- match ?t with _ => _ end = _ => replace t with (Some (pre ++ own :: post)) by (symmetry; exact Hsm) end.
+  destruct m. cbn in *. rewrite Hl. reflexivity.
+Qed.
+
+(* T9: a merge-mining submission that names the job's own hashing id is either refused as a whole (chain list not
+   strictly ascending, ...) or judged as EXACTLY the blob that was submitted, with the miner's nonce and extra nonce,
+   under that blob's own seed, against the difficulty of the job's own block *)
+Lemma merge_blob_judged_as_submitted s cid c jid j len n x m :
+  reachable s -> nget (s_conns s) cid = Some c -> find_job (c_jobs c) jid = Some j -> 4 <= len ->
+  own_entry cfg m = own_entry cfg (j_sent j) ->
+  exists b, nget (s_heap s) (j_ptr j) = Some b /\
+  (step cfg pow s (ESubmit cid jid (NBytes len n) x (MBlob m)) = (kick s cid, OBlobRefused) \/
+   step cfg pow s (ESubmit cid jid (NBytes len n) x (MBlob m)) =
+     submit_result s cid (judge cfg pow (b_diff b) (c_addr c) (miner_blob m n x))).
+Proof.
+  intros Hr Hc Hf Hlen Hown. destruct (find_job_In _ _ _ Hf) as [Hin _].
+  destruct (reachable_job_ok _ _ _ _ Hr Hc Hin) as (b & H1 & H2 & H3).
+  exists b. split; [exact H1|].
+  cbn [step]. unfold do_submit. rewrite Hc.
+  destruct (len <? 4) eqn:E; [apply N.ltb_lt in E; lia|]. rewrite Hf, H1. unfold complete.
+  destruct (is_masterchain cfg); [left; reflexivity|].
+  destruct (set_mining_blob cfg b m) as [b1|] eqn:Es; [|left; reflexivity]. right.
+  rewrite (own_entry_blob_of _ _ H3) in Hown.
+  pose proof (set_mining_blob_exact _ _ _ Es Hown) as Hb1.
+  destruct (blob_of_fields _ _ Hb1) as (Hts & Hex & Hno).
+  set (e := match x with XBytes l v => if l =? 16 then v else b_extra b1 | XNone => b_extra b1 end).
+  rewrite (blob_of_renonce b1 m e n Hb1). cbn [b_rcp b_diff].
+  assert (Hk : b_rcp b1 = b_rcp b /\ b_diff b1 = b_diff b).
+  { unfold set_mining_blob in Es. destruct (smb_loop _ _ _ _ _ _); [|discriminate]. injection Es as <-. cbn. auto. }
+  destruct Hk as [-> ->]. rewrite H2.
+  assert (Hm : miner_blob m n x = mkblob (mb_ts m) e n (mb_chains m)).
+  { unfold miner_blob, e. rewrite Hex. reflexivity. }
+  rewrite Hm. reflexivity.
 Qed.
 
 (* ---- the same statements with "reachable" spelled out (the forms quoted by Props/C15.v) ---- *)
 
 Lemma job_pays_owner_run evs s os cid c j :
-  run cfg pow_ok init_server evs = (s, os) -> nget (s_conns s) cid = Some c -> In j (c_jobs c) ->
+  run cfg pow init_server evs = (s, os) -> nget (s_conns s) cid = Some c -> In j (c_jobs c) ->
   (exists b, nget (s_heap s) (j_ptr j) = Some b /\ b_rcp b = c_addr c) /\ pays cfg (j_sent j) (c_addr c) = true.
 Proof. intros H. apply job_pays_owner. exists evs, os. exact H. Qed.
 
 Lemma job_is_stable_run evs s os cid c j :
-  run cfg pow_ok init_server evs = (s, os) -> nget (s_conns s) cid = Some c -> In j (c_jobs c) ->
+  run cfg pow init_server evs = (s, os) -> nget (s_conns s) cid = Some c -> In j (c_jobs c) ->
   exists b, nget (s_heap s) (j_ptr j) = Some b /\ blob_of cfg b = Some (j_sent j).
 Proof. intros H. apply job_is_stable. exists evs, os. exact H. Qed.
 
 Lemma submit_judged_against_sent_blob_run evs s os cid c jid j len n x :
-  run cfg pow_ok init_server evs = (s, os) -> nget (s_conns s) cid = Some c -> find_job (c_jobs c) jid = Some j -> 4 <= len ->
-  step cfg pow_ok s (ESubmit cid jid (NBytes len n) x MNone) =
-    (s, if pow_ok (miner_blob (j_sent j) n x) then OFound (c_addr c) (miner_blob (j_sent j) n x) else ORejectedLowDiff).
+  run cfg pow init_server evs = (s, os) -> nget (s_conns s) cid = Some c -> find_job (c_jobs c) jid = Some j -> 4 <= len ->
+  exists b, nget (s_heap s) (j_ptr j) = Some b /\
+  step cfg pow s (ESubmit cid jid (NBytes len n) x MNone) =
+    submit_result s cid (judge cfg pow (b_diff b) (c_addr c) (miner_blob (j_sent j) n x)).
 Proof. intros H. apply submit_judged_against_sent_blob. exists evs, os. exact H. Qed.
 
 Lemma found_block_pays_owner_run evs s os cid jid nonce x mb s' r judged :
-  run cfg pow_ok init_server evs = (s, os) -> step cfg pow_ok s (ESubmit cid jid nonce x mb) = (s', OFound r judged) ->
+  run cfg pow init_server evs = (s, os) -> step cfg pow s (ESubmit cid jid nonce x mb) = (s', OFound r judged) ->
   exists c j, nget (s_conns s) cid = Some c /\ find_job (c_jobs c) jid = Some j /\ r = c_addr c /\
     own_entry cfg judged = own_entry cfg (j_sent j) /\ pays cfg judged (c_addr c) = true /\ s' = s.
 Proof. intros H. apply found_block_pays_owner. exists evs, os. exact H. Qed.
 
 Lemma others_do_not_interfere_run evs s os e s' o cid :
-  run cfg pow_ok init_server evs = (s, os) -> step cfg pow_ok s e = (s', o) -> event_cid e <> Some cid ->
+  run cfg pow init_server evs = (s, os) -> step cfg pow s e = (s', o) -> event_cid e <> Some cid ->
   nget (s_conns s') cid = nget (s_conns s) cid /\
   (forall p b, nget (s_heap s) p = Some b -> nget (s_heap s') p = Some b).
 Proof. intros H. apply others_do_not_interfere. exists evs, os. exact H. Qed.
 
 Lemma submit_never_panics_run evs s os cid jid nonce x mb s' o :
-  run cfg pow_ok init_server evs = (s, os) -> step cfg pow_ok s (ESubmit cid jid nonce x mb) = (s', o) -> o <> OPanic.
-Proof. intros H. apply submit_never_panics. exists evs, os. exact H. Qed.
+  Forall tpl_ok evs -> run cfg pow init_server evs = (s, os) -> step cfg pow s (ESubmit cid jid nonce x mb) = (s', o) -> o <> OPanic.
+Proof. intros Hf H. apply submit_never_panics. exists evs, os. split; assumption. Qed.
+
+Lemma job_target_is_of_own_block_run evs s os cid c j :
+  Forall tpl_ok evs -> run cfg pow init_server evs = (s, os) -> nget (s_conns s) cid = Some c -> In j (c_jobs c) ->
+  exists b, nget (s_heap s) (j_ptr j) = Some b /\ 1 <= b_diff b /\ b_diff b < two64 /\ j_target j = max_u64 / b_diff b.
+Proof. intros Hf H. apply job_target_is_of_own_block. exists evs, os. split; assumption. Qed.
+
+Lemma share_meeting_target_found_run evs s os cid c jid j len n x mb b jb judged :
+  Forall tpl_ok evs -> run cfg pow init_server evs = (s, os) ->
+  nget (s_conns s) cid = Some c -> find_job (c_jobs c) jid = Some j -> 4 <= len ->
+  nget (s_heap s) (j_ptr j) = Some b -> complete cfg b n x mb = CBlock jb -> blob_of cfg jb = Some judged ->
+  meets_target (pow (blob_seed cfg judged) judged) (j_target j) = true ->
+  step cfg pow s (ESubmit cid jid (NBytes len n) x mb) = (s, OFound (c_addr c) judged).
+Proof. intros Hf H. apply share_meeting_target_found. exists evs, os. split; assumption. Qed.
+
+Lemma merge_blob_judged_as_submitted_run evs s os cid c jid j len n x m :
+  run cfg pow init_server evs = (s, os) -> nget (s_conns s) cid = Some c -> find_job (c_jobs c) jid = Some j -> 4 <= len ->
+  own_entry cfg m = own_entry cfg (j_sent j) ->
+  exists b, nget (s_heap s) (j_ptr j) = Some b /\
+  (step cfg pow s (ESubmit cid jid (NBytes len n) x (MBlob m)) = (kick s cid, OBlobRefused) \/
+   step cfg pow s (ESubmit cid jid (NBytes len n) x (MBlob m)) =
+     submit_result s cid (judge cfg pow (b_diff b) (c_addr c) (miner_blob m n x))).
+Proof. intros H. apply merge_blob_judged_as_submitted. exists evs, os. exact H. Qed.
 
 End StratumProofs.
+
+(* the targets sent in a run, in order (used by the worked example of Props/C15.v) *)
+Definition sent_targets (os : list outcome) : list N :=
+  flat_map (fun o => match o with OJob _ _ t => [t] | _ => [] end) os.
